@@ -24,13 +24,15 @@ theorem lockSum_nonneg (ls : List Lock) : 0 ≤ lockSum ls := by
   | cons l ls ih => simp only [lockSum]; omega
 
 /-- the outcomes of `distributeGauge` that write the gauge record. -/
-theorem distributeGauge_written {thr : Thr} {locks : List Lock} {g : Gauge} {total : Coins} {pays : List Pay}
+theorem distributeGauge_written {thr : MinVal} {locks : List Lock} {g : Gauge} {total : Coins} {pays : List Pay}
     (h : distributeGauge thr locks g = some (some (total, pays))) :
     ∃ remain e, subCoins g.coins g.distributed = some remain ∧ remainEpochs g = some e ∧
       (gaugeLocks g locks).isEmpty = false ∧
       (((remain.isEmpty = true ∨ isSpam remain = true) ∧ total = [] ∧ pays = []) ∨
        (remain.isEmpty = false ∧ isSpam remain = false ∧ 0 < lockSum (gaugeLocks g locks) ∧
-        pays = lockPays thr remain (lockSum (gaugeLocks g locks) * e) (gaugeLocks g locks) ∧ total = sumPays pays)) := by
+        thr.fails remain = false ∧
+        pays = lockPays (minFilter thr) (minFilter (thr.after remain)) remain (lockSum (gaugeLocks g locks) * e) (gaugeLocks g locks) ∧
+        total = sumPays pays)) := by
   unfold distributeGauge at h
   split at h
   · cases h
@@ -57,12 +59,15 @@ theorem distributeGauge_written {thr : Thr} {locks : List Lock} {g : Gauge} {tot
             by_cases h4 : lockSum (gaugeLocks g locks) = 0
             · rw [if_pos h4] at h; cases h
             · rw [if_neg h4] at h
-              injection h with h; injection h with h; injection h with ha hb
-              have := lockSum_nonneg (gaugeLocks g locks)
-              exact Or.inr ⟨by simpa using h2, by simpa using h3, by omega, hb.symm, by rw [← ha, hb]⟩
+              by_cases h5 : thr.fails remain = true
+              · rw [if_pos h5] at h; cases h
+              · rw [if_neg h5] at h
+                injection h with h; injection h with h; injection h with ha hb
+                have := lockSum_nonneg (gaugeLocks g locks)
+                exact Or.inr ⟨by simpa using h2, by simpa using h3, by omega, by simpa using h5, hb.symm, by rw [← ha, hb]⟩
 
 /-- the outcome that leaves the record untouched: no qualifying lock (or an all-zero lock sum). -/
-theorem distributeGauge_untouched {thr : Thr} {locks : List Lock} {g : Gauge}
+theorem distributeGauge_untouched {thr : MinVal} {locks : List Lock} {g : Gauge}
     (h : distributeGauge thr locks g = some none) :
     (gaugeLocks g locks).isEmpty = true ∨ lockSum (gaugeLocks g locks) = 0 := by
   unfold distributeGauge at h
@@ -80,10 +85,10 @@ theorem distributeGauge_untouched {thr : Thr} {locks : List Lock} {g : Gauge}
           · cases h
           · split at h
             · rename_i h4; exact Or.inr h4
-            · cases h
+            · split at h <;> cases h
 
 /-- with at least one qualifying lock the record IS written (lock amounts are positive in reality; here: lock sum ≠ 0). -/
-theorem distributeGauge_writes {thr : Thr} {locks : List Lock} {g : Gauge} {r : Option (Coins × List Pay)}
+theorem distributeGauge_writes {thr : MinVal} {locks : List Lock} {g : Gauge} {r : Option (Coins × List Pay)}
     (h : distributeGauge thr locks g = some r) (hl : (gaugeLocks g locks).isEmpty = false)
     (hs : lockSum (gaugeLocks g locks) ≠ 0) : ∃ total pays, r = some (total, pays) := by
   cases r with
@@ -94,25 +99,25 @@ theorem distributeGauge_writes {thr : Thr} {locks : List Lock} {g : Gauge} {r : 
     · exact absurd h' hs
 
 /-- **the total a gauge pays in one epoch is covered by what it still holds.** -/
-theorem distributeGauge_total {thr : Thr} {locks : List Lock} {g : Gauge} {total : Coins} {pays : List Pay}
+theorem distributeGauge_total {thr : MinVal} {locks : List Lock} {g : Gauge} {total : Coins} {pays : List Pay}
     (hg : GInv g) (h : distributeGauge thr locks g = some (some (total, pays))) :
     validCoins total = true ∧ (∀ p ∈ pays, validCoins p.coins = true) ∧ (∀ d, amountOf total d = paysAmt pays d) ∧
     ∀ d, 0 ≤ amountOf total d ∧ amountOf g.distributed d + amountOf total d ≤ amountOf g.coins d := by
   obtain ⟨remain, e, hrem, he, _, hcase⟩ := distributeGauge_written h
   obtain ⟨hrv, hra⟩ := subCoins_spec hg.vc hg.vd hrem
-  rcases hcase with ⟨_, ht, hp⟩ | ⟨_, _, hS, hp, ht⟩
+  rcases hcase with ⟨_, ht, hp⟩ | ⟨_, _, hS, _, hp, ht⟩
   · subst ht; subst hp
     refine ⟨rfl, fun p hp => absurd hp List.not_mem_nil, fun d => rfl, fun d => ?_⟩
     have := hg.le d
     simp only [amountOf]; omega
-  · have hpv : ∀ p ∈ pays, validCoins p.coins = true := by rw [hp]; exact lockPays_valid thr hrv _ _
+  · have hpv : ∀ p ∈ pays, validCoins p.coins = true := by rw [hp]; exact lockPays_valid _ _ hrv _ _
     refine ⟨by rw [ht]; exact valid_sumPays hpv, hpv, fun d => by rw [ht, amountOf_sumPays], fun d => ?_⟩
     rw [ht, amountOf_sumPays, hp, paysAmt_lockPays]
-    obtain ⟨h0, h1⟩ := locksAmt_le_remain thr hrv (gaugeLocks g locks) hS (remainEpochs_pos he) d
+    obtain ⟨h0, h1⟩ := locksAmt_le_remain (minFilter thr) (minFilter (thr.after remain)) hrv (gaugeLocks g locks) hS (remainEpochs_pos he) d
     have := hra d
     omega
 
-theorem GInv_postDistribute {thr : Thr} {locks : List Lock} {g : Gauge} {total : Coins} {pays : List Pay}
+theorem GInv_postDistribute {thr : MinVal} {locks : List Lock} {g : Gauge} {total : Coins} {pays : List Pay}
     (hg : GInv g) (h : distributeGauge thr locks g = some (some (total, pays))) : GInv (g.postDistribute total) := by
   obtain ⟨hv, _, _, hb⟩ := distributeGauge_total hg h
   refine ⟨hg.vc, valid_addCoins hg.vd hv, fun d => ?_⟩
